@@ -730,6 +730,15 @@ func newInterpreter(cfg *Config) *interpreter {
 	i.inInit = true
 	call(i, nil, token.NoPos, cfg.Pkg.Func("init"), nil)
 	i.inInit = false
+	// package os is not initialised (its init touches the process); give its error sentinels
+	// distinct non-nil values so that errors.Is(err, os.ErrNotExist) has Go's meaning
+	if osPkg := i.prog.ImportedPackage("os"); osPkg != nil {
+		for _, name := range []string{"ErrNotExist", "ErrExist", "ErrPermission", "ErrInvalid", "ErrClosed"} {
+			if g, ok := osPkg.Members[name].(*ssa.Global); ok {
+				*i.globals[g] = i.newError("os: " + name)
+			}
+		}
+	}
 	for k, v := range i.onceDone {
 		i.initOnce[k] = v
 	}
